@@ -12,7 +12,7 @@
    per translated unit by the Tie file, as a Gallina function, never as an axiom.
 
    No proofs in this file. *)
-From Coq Require Import ZArith QArith Qround List String Bool.
+From Coq Require Import ZArith QArith Qround List String Ascii Bool.
 From PV Require Import MiniPy.Syntax.
 Import ListNotations.
 Local Open Scope string_scope.
@@ -408,6 +408,26 @@ Definition binop_name (op : binop) : string :=
   | BitAnd => "and" | BitOr => "or"
   end.
 
+(* Values that stand for objects of a library (a tensor is [VTuple (VStr "$tensor" :: _)], see MiniTorch.Value):
+   a tuple whose first component is a string starting with "$".  Python dispatches the RICH comparisons
+   (== != < <= > >=) of such an object to its own __eq__/__lt__/... (a tensor answers element-wise, with a
+   tensor), so the unit's [ext] is asked: ext "compare" [VStr opname; a; b].  `is`, `is not`, `in` are not
+   overloadable through the operands' comparison methods and keep the rules of [cmp_eval]. *)
+Definition foreign (v : val) : bool :=
+  match v with
+  | VTuple (VStr (String c _) :: _) => Ascii.eqb c "$"%char
+  | _ => false
+  end.
+
+Definition rich (op : cmpop) : bool :=
+  match op with Eq | NotEq | Lt | LtE | Gt | GtE => true | _ => false end.
+
+Definition cmpop_name (op : cmpop) : string :=
+  match op with
+  | Eq => "eq" | NotEq => "ne" | Lt => "lt" | LtE => "le" | Gt => "gt" | GtE => "ge"
+  | In => "in" | NotIn => "notin" | Is => "is" | IsNot => "isnot"
+  end.
+
 (* ---- the interpreter ---------------------------------------------------------- *)
 Section Interp.
   (* calls the subset does not define: name, positional and keyword arguments, state *)
@@ -474,10 +494,18 @@ Section Interp.
                   match av with
                   | VInt z => Ok (VInt (- z)) st1
                   | VQ q => Ok (VQ (Qopp q)) st1
+                  | VInf p => Ok (VInf (negb p)) st1      (* -float("inf") *)
                   | _ => Stuck "neg"
                   end)
     | ECmp op a b => bind (eval a st) (fun av st1 => bind (eval b st1) (fun bv st2 =>
-                       match cmp_eval op av bv with Some r => Ok (VBool r) st2 | None => Stuck "compare" end))
+                       if (rich op && (foreign av || foreign bv))%bool
+                       then ext "compare" [VStr (cmpop_name op); av; bv] [] st2   (* tensor == x, tensor != x, ... *)
+                       else
+                       match cmp_eval op av bv with
+                       | Some r => Ok (VBool r) st2
+                       | None => ext "compare" [VStr (cmpop_name op); av; bv] [] st2   (* operands outside the subset's numbers /
+                                                                                       containers (tensor < tensor): ask [ext] *)
+                       end))
     | EAnd a b => bind (eval a st) (fun av st1 => if truthy av then eval b st1 else Ok av st1)
     | EOr a b => bind (eval a st) (fun av st1 => if truthy av then Ok av st1 else eval b st1)
     | ENot a => bind (eval a st) (fun av st1 => Ok (VBool (negb (truthy av))) st1)
